@@ -34,6 +34,37 @@ def digest(files):
              hashlib.md5(c.encode('utf-8')).hexdigest(), h] for fn, c, h in files]
 
 
+def user_noise(files, spec):
+    """What a user may do between two builds with values of their own: every identifier (and
+    qualified name) that occurs in the generated files or in the configuration is turned into a
+    NamespaceIds / Fqn through the public helpers and that *own* value is extended in place."""
+    import re
+    from dznpy.cpp_gen import fqn_t
+    from dznpy.scoping import namespaceids_t, ns_ids_t
+    toks = set()
+    for _fn, contents, _h in files:
+        toks.update(re.findall(r'[A-Za-z_]\w*(?:::[A-Za-z_]\w*)*', contents))
+    toks.update(str(x) for x in (spec.get('prefix') or []))
+    more = set()
+    for t in toks:
+        parts = t.split('::')
+        more.update(parts)
+        more.add('.'.join(parts))
+    for t in sorted(toks | more):
+        for make in (ns_ids_t, namespaceids_t):
+            try:
+                x = make(t)
+            except Exception:  # pylint: disable=broad-except
+                continue
+            x += ns_ids_t('UserNoise')
+            x.items.append('more')
+        try:
+            f = fqn_t(t)
+            f.ns_ids.items.append('UserNoise')
+        except Exception:  # pylint: disable=broad-except
+            pass
+
+
 def main():
     sys.path.insert(0, os.path.dirname(os.path.dirname(os.path.abspath(__file__))))
     import dznpy
@@ -66,6 +97,9 @@ def main():
                     shared = Builder()
                 builder = shared  # one Builder instance for the whole batch
             kind, res = cfgspec.outcome(spec, model=case['model'], builder=builder)
+            if case.get('user_noise') and kind == 'ok':
+                user_noise(res, spec)
+                kind, res = cfgspec.outcome(spec, model=case['model'], builder=builder)
         except Timeout:
             kind, res = 'err', TimeoutError('build did not finish within 20 s')
         except MemoryError as exc:
